@@ -128,9 +128,12 @@ def aged_signal(rng, cls, values, dt, **kw):
     kinds += ['copy-fork', 'stats-then-reset']
     if is_acc and n >= 4:
         kinds += ['combined-child', 'windowed-correction-then-reset', 'resampled-child']
+    kinds += ['nondefault-generators-then-reset']          # round 7 (hx_r7d): see _aged_nondefault at the end of this file
     kind = rng.choice(kinds)
     if kind == 'fresh':
         return kind, cls(values, dt, **kw)
+    if kind == 'nondefault-generators-then-reset':
+        return kind, _aged_nondefault(rng, cls, values, dt, **kw)
     if kind == 'read-all':
         s = cls(values, dt, **kw)
         _touch(s)
@@ -713,3 +716,43 @@ def refill_oracle(ctx, clause, fns, rng, make, n_rep=6, inputs_extra=None, sibli
                                                     'then_in_place': op, 'content_at_second_call': np.array(buf, copy=True), **(inputs_extra or {})},
                                detail=None if ok else {'fresh array': want[1] if want[0] != 'ok' else _brief_any(want[1]), 'same object': got[1] if got[0] != 'ok' else _brief_any(got[1]),
                                                        'first call': r1[0]})
+
+
+def _aged_nondefault(rng, cls, values, dt, **kw):
+    """history kind 'nondefault-generators-then-reset' (round 7): the object is built on OTHER values, one or more of the public generator
+    methods are called with a NON-DEFAULT option (rectangular-rule velocity/displacement `trap=False`, Fourier spectrum with extra padding
+    `p2_plus` / explicit `n`, smoothing `band`, response spectrum with another damping `xi` / `min_dt_ratio`), the generated quantity is read or
+    not, and then the record is replaced through reset_values(values) WITHOUT reading anything afterwards -- so whatever the generator left
+    behind besides the (cleared) caches is still there when the object reaches the function under test.  Only options are used that the
+    pinned library documents as per-call (no response_times / smoothing-frequency arguments: those are settings that persist by design)."""
+    import warnings
+    n = len(values)
+    m = n if rng.random() < 0.6 else max(2, n + rng.randint(-min(3, n // 2), 5))
+    other = np.array([rng.uniform(-1, 1) for _ in range(m)])
+    s = cls(other, dt, **kw)
+    gens = [('gen_fa_spectrum', lambda: dict(p2_plus=rng.choice([1, 2]))), ('gen_fa_spectrum', lambda: dict(n=m + rng.randint(0, 7))),
+            ('gen_smooth_fa_spectrum', lambda: dict(band=rng.choice([10, 20, 80]))), ('generate_smooth_fa_spectrum', lambda: dict(band=rng.choice([10, 20, 80])))]
+    if cls.__name__ == 'AccSignal':
+        gens += [('generate_displacement_and_velocity_series', lambda: dict(trap=False))] * 4
+        if m <= 2000:
+            gens += [('gen_response_spectrum', lambda: dict(xi=rng.choice([0.0, 0.02, 0.2]))), ('generate_response_spectrum', lambda: dict(xi=0.1, min_dt_ratio=rng.choice([2, 8])))]
+    reads = {'gen_fa_spectrum': ('fa_spectrum', 'fa_frequencies'), 'gen_smooth_fa_spectrum': ('smooth_fa_spectrum',), 'generate_smooth_fa_spectrum': ('smooth_fa_spectrum',),
+             'generate_displacement_and_velocity_series': ('velocity', 'displacement', 'pgv', 'pgd'), 'gen_response_spectrum': ('s_a', 's_d'),
+             'generate_response_spectrum': ('s_v',)}
+    if rng.random() < 0.3:
+        _touch(s)                                   # default-option caches first: the non-default call has to replace them
+    for name, opts in [rng.choice(gens) for _ in range(rng.choice([1, 1, 2, 3]))]:
+        with warnings.catch_warnings():
+            warnings.simplefilter('ignore')
+            try:
+                getattr(s, name)(**opts())
+            except Exception:
+                continue
+            if rng.random() < 0.5:
+                for r in reads[name]:
+                    try:
+                        getattr(s, r)
+                    except Exception:
+                        pass
+    s.reset_values(values)                          # and nothing is read afterwards
+    return s
